@@ -17,6 +17,7 @@ class Check(PropertyCheck):
         "JS.C10_dispatch_notifies", "JS.C10_recorder_sees_post_state", "JS.C10_rejected_silent", "JS.C10_reset_once",
         "JS.C10_unsubscribe", "JS.C10_detached", "JS.C10_singleton", "JS.C10_create_or_get", "JS.C10_create_or_get_cond", "JS.C10_history", "JS.C10_world_history", "JS.C10_world_history_state",
         "JS.C10_world_unsubscribed_frozen_any", "JS.C10_world_nonsubscribed_frozen_any", "JS.C10_findObs_subscribed",
+        "JS.Notify.C10_snapRound_notifies_snapshot", "JS.Notify.C10_snapRound_final", "JS.Notify.C10_liveRound_quiet", "JS.Notify.C10_liveRound_skips_next", "JS.Notify.C10_snapRound_oneShot", "JS.Notify.liveRound_oneShot_eq",
     ]
     RULE = ("random instance x random event list over {construct(history|unscheduled|makespan_reward|idle_reward|recorder; also with subscribe=False), "
             "create_or_get, unsubscribe, re-subscribe, valid and invalid dispatch, reset}; several recorder observers (a "
